@@ -9,3 +9,65 @@ pub open spec fn reserved_spec(s: Seq<char>) -> bool { exists|j: int| 0 <= j < K
 // ---- C15: builder state ---------------------------------------------------------------------------------------
 pub open spec fn rule_name_taken(rules: Seq<Rule>, name: Seq<char>) -> bool { exists|j: int| 0 <= j < rules.len() && (#[trigger] rules[j]).name@ == name }
 pub open spec fn rules_distinct(rules: Seq<Rule>) -> bool { forall|i: int, j: int| 0 <= i < j < rules.len() ==> (#[trigger] rules[i]).name@ != (#[trigger] rules[j]).name@ }
+
+// ---- C15: batch forms (with_rules / with_functions): the batch is the fold of the single-item operation, stopping at the first refusal
+pub open spec fn add_rules_spec(rules: Seq<Rule>, new: Seq<Rule>, i: nat) -> core::result::Result<Seq<Rule>, Seq<char>>
+    decreases new.len() - i,
+{
+    if i >= new.len() { Ok(rules) }
+    else if rule_name_taken(rules, new[i as int].name@) { Err(new[i as int].name@) }
+    else { add_rules_spec(rules.push(new[i as int]), new, i + 1) }
+}
+
+pub open spec fn fn_accepted(fm: Map<&'static str, BoxedFunction>, f: BoxedFunction) -> bool {
+    is_ident_spec(f.spec_name()@) && !reserved_spec(f.spec_name()@) && !fm.dom().contains(f.spec_name())
+}
+
+/// Ok(registry after the whole batch) or Err(index of the first refused function)
+pub open spec fn add_fns_spec(fm: Map<&'static str, BoxedFunction>, new: Seq<BoxedFunction>, i: nat) -> core::result::Result<Map<&'static str, BoxedFunction>, int>
+    decreases new.len() - i,
+{
+    if i >= new.len() { Ok(fm) }
+    else if fn_accepted(fm, new[i as int]) { add_fns_spec(fm.insert(new[i as int].spec_name(), new[i as int]), new, i + 1) }
+    else { Err(i as int) }
+}
+
+/// what the recursive batch spec means in closed form (the statement of C15): an accepted batch appends the rules in order,
+/// keeps names distinct, and a refusal names a rule whose name was already present (before or earlier in the batch)
+//@lemma with_rules.closed_form C15
+pub proof fn lemma_add_rules_spec(rules: Seq<Rule>, new: Seq<Rule>, i: nat)
+    requires i <= new.len(),
+    ensures
+        match add_rules_spec(rules, new, i) {
+            Ok(rs) => rs == rules + new.subrange(i as int, new.len() as int) && (rules_distinct(rules) ==> rules_distinct(rs)),
+            Err(n) => exists|j: int| i <= j < new.len() && new[j].name@ == n && rule_name_taken(rules + new.subrange(i as int, j), n),
+        },
+    decreases new.len() - i,
+{
+    if i >= new.len() {
+        assert(new.subrange(i as int, new.len() as int) =~= Seq::<Rule>::empty());
+        assert(rules + Seq::<Rule>::empty() =~= rules);
+    } else if rule_name_taken(rules, new[i as int].name@) {
+        assert(new.subrange(i as int, i as int) =~= Seq::<Rule>::empty());
+        assert(rules + Seq::<Rule>::empty() =~= rules);
+    } else {
+        let r2 = rules.push(new[i as int]);
+        lemma_add_rules_spec(r2, new, i + 1);
+        assert(rules_distinct(rules) ==> rules_distinct(r2)) by {
+            if rules_distinct(rules) {
+                assert forall|a: int, b: int| 0 <= a < b < r2.len() implies (#[trigger] r2[a]).name@ != (#[trigger] r2[b]).name@ by {
+                    if b == rules.len() { assert(r2[a] == rules[a]); }
+                }
+            }
+        }
+        match add_rules_spec(r2, new, i + 1) {
+            Ok(rs) => {
+                assert(r2 + new.subrange(i as int + 1, new.len() as int) =~= rules + new.subrange(i as int, new.len() as int));
+            }
+            Err(n) => {
+                let j = choose|j: int| i + 1 <= j < new.len() && new[j].name@ == n && rule_name_taken(r2 + new.subrange(i as int + 1, j), n);
+                assert(r2 + new.subrange(i as int + 1, j) =~= rules + new.subrange(i as int, j));
+            }
+        }
+    }
+}
